@@ -126,7 +126,7 @@ def gen_scenario(seed, index):
         if can_register(r, m):
             model.nodes[r]["own"][sigkey(spec, m)] = [m, None]
             mids.append(m)
-    ops.append({"op": "root", "name": r, "mids": mids})
+    ops.append({"op": "root", "name": r, "mids": mids, "named": rng.random() < 0.6})
     n = rng.randint(3, 15)
     tries = 0
     while len(ops) < n and tries < 100:
@@ -142,13 +142,14 @@ def gen_scenario(seed, index):
                 if can_register(nm, m):
                     model.nodes[nm]["own"][sigkey(spec, m)] = [m, None]
                     mids.append(m)
-            ops.append({"op": "root", "name": nm, "mids": mids})
+            ops.append({"op": "root", "name": nm, "mids": mids, "named": rng.random() < 0.6})
         elif k == "copy" and len(names) < 6:
             src = rng.choice(names)
             nm = fresh_name()
             lb = rng.random() < 0.45
             model.add(nm, [src], lb)
-            ops.append({"op": "copy", "src": src, "name": nm, "linkback": lb})
+            ops.append({"op": "copy", "src": src, "name": nm, "linkback": lb,
+                        "named": rng.random() < 0.6})
         elif k == "variant" and len(names) < 6:
             src = rng.choice(names)
             nm = fresh_name()
@@ -156,7 +157,8 @@ def gen_scenario(seed, index):
             m = rng.choice(pool)
             model.add(nm, [src], lb)
             model.nodes[nm]["own"][sigkey(spec, m)] = [m, None]
-            ops.append({"op": "variant", "src": src, "name": nm, "mid": m, "linkback": lb})
+            ops.append({"op": "variant", "src": src, "name": nm, "mid": m, "linkback": lb,
+                        "named": rng.random() < 0.6})
         elif k == "mix" and len(names) >= 2 and len(names) < 6:
             ps = rng.sample(names, 2)
             e0, e1 = model.effective(ps[0]), model.effective(ps[1])
@@ -165,7 +167,8 @@ def gen_scenario(seed, index):
             nm = fresh_name()
             lb = rng.random() < 0.45
             model.add(nm, ps, lb)
-            ops.append({"op": "mix", "parents": ps, "name": nm, "linkback": lb})
+            ops.append({"op": "mix", "parents": ps, "name": nm, "linkback": lb,
+                        "named": rng.random() < 0.6})
         elif k == "addmix" and len(names) >= 2:
             node, par = rng.sample(names, 2)
             # no cycles, disjoint keys with what the node already has from parents
@@ -255,7 +258,7 @@ def execute(scen):
         k = op["op"]
         res = None
         if k == "root":
-            ov = w.new_func(op["name"])
+            ov = w.new_func(op["name"], named=op.get("named", True))
             model.add(op["name"], [], False)
             for m in op["mids"]:
                 w.register(op["name"], m)
@@ -264,7 +267,8 @@ def execute(scen):
             if op["src"] not in w.funcs:
                 continue
             ov = w.funcs[op["src"]].copy(linkback=op["linkback"])
-            ov.rename(op["name"], op["name"])
+            if op.get("named", True):
+                ov.rename(op["name"], op["name"])
             w.funcs[op["name"]] = ov
             model.add(op["name"], [op["src"]], op["linkback"])
         elif k == "variant":
@@ -273,7 +277,8 @@ def execute(scen):
             ov = w.funcs[op["src"]].variant(w.method(op["mid"]),
                                             priority=spec["methods"][op["mid"]].get("prio", 0),
                                             linkback=op["linkback"])
-            ov.rename(op["name"], op["name"])
+            if op.get("named", True):
+                ov.rename(op["name"], op["name"])
             w.funcs[op["name"]] = ov
             model.add(op["name"], [op["src"]], op["linkback"])
             model.nodes[op["name"]]["own"][sigkey(spec, op["mid"])] = [op["mid"], None]
@@ -281,7 +286,8 @@ def execute(scen):
             if any(p not in w.funcs for p in op["parents"]):
                 continue
             ov = Ovld(mixins=[w.funcs[p] for p in op["parents"]], linkback=op["linkback"])
-            ov.rename(op["name"], op["name"])
+            if op.get("named", True):
+                ov.rename(op["name"], op["name"])
             w.funcs[op["name"]] = ov
             model.add(op["name"], op["parents"], op["linkback"])
         elif k in ("register", "unregister", "addmix"):
